@@ -97,8 +97,7 @@ func runCase(w *world, k kase, check string, verbose bool) [][2]string {
 			add(fmt.Sprintf("wrong-result-accepted|%s|%s", cls, e[0]), e[1]+"\n"+desc())
 		}
 	case "C04":
-		if k.Menu == "state" && strings.HasSuffix(k.Path, "[self]") && k.Op == "state+1-then-restore" &&
-			(strings.Contains(k.Path, "presign3.GammaShare") || strings.Contains(k.Path, "presign3.SecretECDSA") || strings.Contains(k.Path, "presign3.KShare")) {
+		if strongBlame(k) {
 			// delta or chi contribution inconsistent while the individual proofs pass: every honest signer must single out the deviator
 			for _, id := range honest {
 				pe := end.Parties[id]
